@@ -9,13 +9,15 @@ RULE = ("P1: for all shapes m, l, n in 1..KC (quick 3, thorough 5), four flag pa
         "every block size 1..2 max(m,l,n) and for 2^40, 2^63, usize::MAX - 1, usize::MAX, xtx, and every Dot method in "
         "all receiver/argument ownership combinations (Matrix.Matrix; Matrix.Vector when n = 1; Vector.Matrix when m = "
         "1; Vector.Vector when m = n = 1), equality oracle on integer entries, panic expected for non-conformable "
-        "shapes; A A^T and A^T A with one object passed as both operands equal the products with a copy; a third of the"
-        " cases is replayed again with the operands scaled by powers of two (2^-60 x 2^60, 2^-55 x 2^-55, 2^300 x "
-        "2^200, 2^-500 x 1: still exact), and with one operand square and symmetric up to the last bit (2^53 and 2^53 +"
-        " 2 across the diagonal) against a row / column selector: transposed exactly as the flags say; P3: random "
-        "shapes up to 12 (quick) / 16 (thorough) with entries in +-50 recorded and validated by TLC (Trace_Products); "
-        "shapes 17..64 through the relational observation matmul_blocked = matmul. Case class = (entry point + "
-        "ownership, flags, shape class, conformable?, block-size class).")
+        "shapes; A A^T and A^T A with one object passed as both operands equal the products with a copy; the same "
+        "operand buffers after two entries were exchanged in place give the product of fresh copies; a 1 x 1 right "
+        "operand against an inner dimension >= 2 is rejected in every ownership form; a third of the cases is replayed "
+        "again with the operands scaled by powers of two (2^-60 x 2^60, 2^-55 x 2^-55, 2^300 x 2^200, 2^-500 x 1: still"
+        " exact), and with one operand square and symmetric up to the last bit (2^53 and 2^53 + 2 across the diagonal) "
+        "against a row / column selector: transposed exactly as the flags say; P3: random shapes up to 12 (quick) / 16 "
+        "(thorough) with entries in +-50 recorded and validated by TLC (Trace_Products); shapes 17..64 through the "
+        "relational observation matmul_blocked = matmul. Case class = (entry point + ownership, flags, shape class, "
+        "conformable?, block-size class).")
 ASSUMPTIONS = ["integer-valued entries: products and sums exact in f64 (equality oracle)",
                "a Vector argument/receiver is promoted to a column/row as the trait documentation states"]
 EXHAUSTIVE = True
